@@ -90,6 +90,8 @@ def judge(ctx, case, res, mout):
              sample=small if case['label'] != 'unbounded' else None)
     ctx.count('label:' + case['label'])
     ctx.count('mode:' + ('parallel' if par else 'serial'))
+    if res.get('retried'):
+        ctx.count('scenarios_rerun_after_a_timeout')
     if res.get('timeout'):
         ctx.fail('stream-deadlock', 'the stream did not finish within the time limit', small)
         return
